@@ -158,6 +158,8 @@ def check_case(ctx, tr, case):
     ctx.count('calls:' + case['kind'])
     ctx.count('noise_level:%g' % lvl)
     ctx.count('mode:' + ek['noise_mode'])
+    if ek.get('verbose'):
+        ctx.count('calls_with_a_verbosity_override')
     if not any(e['stage'] == 'swn' for e in events):
         ctx.count('no_member_events')
         return
@@ -279,6 +281,8 @@ def gen_case(rng):
                  'ensemble_noise': float(gens.pick(rng, [0.0, .05, .2, 2.0])), 'noise_mode': gens.pick(rng, ['single', 'flip'])},
          'cap': gens.pick(rng, [None, 1, 2, 3, 5]) if kind == 'ens' else int(rng.integers(1, 5)),
          'rng_seed': int(rng.integers(2 ** 31))}
+    if rng.random() < .3:
+        c['ens']['verbose'] = gens.pick(rng, ['WARNING', 'CRITICAL', 'INFO'])      # a per-call verbosity: documented to change logging only
     return c
 
 
